@@ -1,7 +1,7 @@
 """C19 — dense matrix storage keeps rows aligned and contents intact across operations."""
 import re
 from lm.db import short
-from lm import expr as X
+from lm import expr as X, guards as G
 from lm.match import norm, m
 from . import common
 
@@ -103,7 +103,15 @@ def r192(db, ctx, F):
                 continue
             writers += 1
             meth = c.rsplit('::', 1)[-1]
-            if meth not in ('resize_with', 'set_len'):
+            if meth == 'truncate':
+                # truncate(n) leaves len = min(len, n): the new length is the operand only under a dominating n <= len
+                nl = norm(R.operand(t['args'][1]))
+                rels_ = G.relations(f, R, bi)
+                le_ok = G.holds(rels_, 'le', lambda e: norm(e) == nl, lambda e: common.is_len_of(e, recv)) is not None
+                if not le_ok:
+                    ctx.fail('R19.2', f, 'Vec::truncate on the row vector', f'truncate({X.show(nl)}) is not dominated by {X.show(nl)} <= len: the resulting length is min(len, n), not n')
+                    continue
+            elif meth not in ('resize_with', 'set_len'):
                 ctx.fail('R19.2', f, f'Vec::{meth} on the row vector', 'reason=unrecognised-shape: length change through a method whose new length is not an explicit operand')
                 continue
             newlen = norm(R.operand(t['args'][1]))
@@ -132,12 +140,24 @@ def r192(db, ctx, F):
                 continue
             val = norm(s['value'])
             paired = False
+            same = []
             for bi, t in f.calls():
                 c = f.callee_short(t) or ''
-                if c in ('alloc::vec::Vec::resize_with', 'alloc::vec::Vec::set_len') and \
-                        m(('fld', b['$base'], F['data']), norm(R2.operand(t['args'][0]))) is not None and norm(R2.operand(t['args'][1])) == val \
-                        and (f.dominates(bi, s['block']) or bi in f.postdominators().get(s['block'], ())):
-                    paired = True
+                if c in ('alloc::vec::Vec::resize_with', 'alloc::vec::Vec::set_len', 'alloc::vec::Vec::truncate') and \
+                        m(('fld', b['$base'], F['data']), norm(R2.operand(t['args'][0]))) is not None and norm(R2.operand(t['args'][1])) == val:
+                    same.append(bi)
+                    if f.dominates(bi, s['block']) or bi in f.postdominators().get(s['block'], ()):
+                        paired = True
+            if not paired and same:
+                # several alternative length changes (grow in one branch, shrink in the other): every path to the store passes through one
+                seen_, st_ = set(), [0]
+                while st_:
+                    x_ = st_.pop()
+                    if x_ in seen_ or x_ in same:
+                        continue
+                    seen_.add(x_)
+                    st_.extend(f.succs(x_))
+                paired = s['block'] not in seen_
             if not paired:
                 ctx.fail('R19.2', f, f'store to .{F["rows"]}', f'row count set to {X.show(val)} without a dominating length change of the row vector to the same value', span=s['span'])
         # (c) aggregates constructing a DenseMatrix: (Vec::new()/with_capacity(_), 0)
